@@ -2,6 +2,7 @@ package main
 
 import (
 	"go/token"
+	"go/types"
 
 	"golang.org/x/tools/go/ssa"
 )
@@ -26,22 +27,67 @@ func (fv *FV) lockEffect(st *State, spec *FuncSpec, args []Term, pos token.Pos) 
 	}
 }
 
-// guardCheckImpl: guarded_by obligations (configured through Engine.guards).
+// guardCheckImpl: guarded_by discipline. m is the SSA value of a map being read, written or ranged
+// over. If it was loaded from a guarded field (or guarded package variable), the guarding mutex
+// must be held on this path (ghost state `held`, maintained by the Lock/Unlock contracts).
 func (fv *FV) guardCheckImpl(st *State, m ssa.Value, pos token.Pos) {
-	g := fv.eng.guardFor(fv, st, m)
-	if g == nil {
+	ld, ok := m.(*ssa.UnOp)
+	if !ok {
 		return
 	}
-	ok := false
-	for k, h := range st.held {
-		if h && k == g.S {
-			ok = true
+	var mutexTerm Term
+	what := ""
+	switch src := ld.X.(type) {
+	case *ssa.FieldAddr:
+		el, isP := isPtr(src.X.Type())
+		if !isP {
+			return
+		}
+		n, ok := el.(*types.Named)
+		if !ok || n.Obj().Pkg() == nil {
+			return
+		}
+		stt, ok := n.Underlying().(*types.Struct)
+		if !ok {
+			return
+		}
+		fname := stt.Field(src.Field).Name()
+		for _, g := range fv.eng.specs.Guards {
+			if g.PkgName == n.Obj().Pkg().Name() && g.Type == n.Obj().Name() && g.Field == fname {
+				for i := 0; i < stt.NumFields(); i++ {
+					if stt.Field(i).Name() == g.Mutex {
+						obj := fv.val(st, src.X)
+						if obj.K != VTerm {
+							return
+						}
+						mutexTerm = fv.heapLoadPath(st, obj.T, el, []int{i})
+						what = n.Obj().Name() + "." + fname
+					}
+				}
+			}
+		}
+	case *ssa.Global:
+		for _, g := range fv.eng.specs.Guards {
+			if g.Type == "" && g.PkgName == src.Pkg.Pkg.Name() && g.Field == src.Name() {
+				if mg, ok := src.Pkg.Members[g.Mutex].(*ssa.Global); ok {
+					mutexTerm = fv.load(st, SymVal{K: VGlobalPtr, Global: mg}, mg.Type().(*types.Pointer).Elem(), pos).T
+					what = src.Name()
+				}
+			}
 		}
 	}
-	if !ok {
-		fv.oblige(st, "guard", g.T.String(), pos, tFalse, "access to guarded map without holding its mutex")
-	} else {
-		// record a discharged (trivially true) guard obligation so that it is counted
-		fv.guardsOK++
+	if what == "" {
+		return
 	}
+	held := false
+	for k, h := range st.held {
+		if h && k == mutexTerm.S {
+			held = true
+		}
+	}
+	goal := tTrue
+	if !held {
+		goal = tFalse
+	}
+	fv.oblige(st, "guard", what, pos, goal, "access to "+what+" requires holding its mutex")
 }
